@@ -124,6 +124,9 @@ def undirected_eval(ctx, rng, idx, h):
     combos = [("intersection", s) for s in (1, 2, 3, 4)] + [("jaccard", s) for s in JS]
     realised = sorted({len(a & b) / len(a | b) for a, b in itertools.combinations(edges, 2) if a & b})
     combos = rng.sample(combos, 5 if ctx.tier == "quick" else 10) + [("jaccard", s) for s in realised[:6]]  # thresholds hit exactly
+    # ... and thresholds a hair above / below a realised value (1e-11 relative: far beyond rounding of the quotient,
+    # far below any "close enough" tolerance): only ">= s" in the strict sense joins
+    combos += [("jaccard", v * f) for v in realised[:4] for f in (1 + 1e-11, 1 - 1e-11) if 0 < v * f <= 1]
     for kind, s in combos:
         for weighted in (False, True):
             for name, fn in (("function", lambda: pr.line_graph(h, kind, s, weighted)), ("method", lambda: h.to_line_graph(kind, s, weighted))):
@@ -210,6 +213,7 @@ def directed_eval(ctx, rng, idx, h):
     combos = [("intersection", s) for s in (1, 2, 3)] + [("jaccard", s) for s in rng.sample(JS, 6)]
     realised = sorted({len(a[1] & b[0]) / len(a[1] | b[0]) for a in edges for b in edges if a != b and a[1] & b[0]})
     combos += [("jaccard", s) for s in realised[:6]]
+    combos += [("jaccard", v * f) for v in realised[:4] for f in (1 + 1e-11, 1 - 1e-11) if 0 < v * f <= 1]
     for kind, s in combos:
         for weighted in (False, True):
             r = call(pr.directed_line_graph, h, kind, s, weighted) if rng.random() < 0.7 else call(h.to_line_graph, kind, s, weighted)
